@@ -65,7 +65,7 @@ Definition cmp_state (i : Z) (s : st) (o : mobs) : list Z :=
   if negb (Z.of_nat (length (s_attrs s)) =? Z.of_nat (length (o_attrs o)))
   then [i; 60; Z.of_nat (length (s_attrs s)); Z.of_nat (length (o_attrs o))]
   else match attr_diff s i (o_attrs o) with
-  | _ :: _ as d => d
+  | (_ :: _) as d => d
   | [] =>
   match first_diff (sup s) (o_sup o) with
   | Some (k, m, v) => [i; 4000; m; v]
